@@ -101,7 +101,11 @@ func (s *Service) proxyToSingleEndpoint(ctx context.Context, w http.ResponseWrit
 	}
 
 	if err != nil {
-		if cb != nil {
+		// A request the client gave up on (an editor cancelling a completion, a stop button) ends
+		// the round trip with context.Canceled. That is the client's doing, not a failure of the
+		// backend, and must not count towards opening its circuit: five impatient clients would
+		// otherwise shut a healthy endpoint out for the breaker's whole timeout.
+		if cb != nil && !(errors.Is(err, context.Canceled) && r.Context().Err() != nil) {
 			cb.RecordFailure()
 		}
 		// Don't log as error if it's a connection failure - the retry handler will handle it
